@@ -82,12 +82,31 @@ pub fn run_client<F>(args: &[&str], n: usize, respond: F) -> Result<ClientRun, S
 where
     F: FnOnce(&[(Vec<u8>, SocketAddr)]) -> Vec<Vec<Vec<u8>>>,
 {
-    let sock = UdpSocket::bind("127.0.0.1:0").map_err(|e| e.to_string())?;
+    run_client_tz(args, n, "UTC", respond)
+}
+
+/// `run_client` with the client process's local time zone (TZ) chosen by the caller.
+pub fn run_client_tz<F>(args: &[&str], n: usize, tz: &str, respond: F) -> Result<ClientRun, String>
+where
+    F: FnOnce(&[(Vec<u8>, SocketAddr)]) -> Vec<Vec<Vec<u8>>>,
+{
+    // a port below the kernel's ephemeral range: late datagrams of unrelated processes go to
+    // (reused) ephemeral ports, and everything that arrives here is taken for a client request
+    let sock = {
+        let mut s = None;
+        for _ in 0..20 {
+            if let Ok(x) = UdpSocket::bind(("127.0.0.1", free_port())) {
+                s = Some(x);
+                break;
+            }
+        }
+        s.ok_or("cannot bind a responder socket")?
+    };
     sock.set_read_timeout(Some(Duration::from_secs(10))).unwrap();
     let port = sock.local_addr().unwrap().port();
     let mut cmd = Command::new(repo_bin("roughenough-client"));
     cmd.args(args).arg("127.0.0.1").arg(port.to_string());
-    cmd.env("RUST_BACKTRACE", "0").env("TZ", "UTC");
+    cmd.env("RUST_BACKTRACE", "0").env("TZ", tz);
     cmd.stdin(Stdio::null()).stdout(Stdio::piped()).stderr(Stdio::piped());
     let child = cmd.spawn().map_err(|e| format!("spawn client: {}", e))?;
     let mut reqs = vec![];
@@ -113,6 +132,23 @@ where
         return Err("client did not exit within 20 s".into());
     }
     Ok(ClientRun { exit, requests: reqs })
+}
+
+/// Sum of the receive-queue bytes of every UDP socket bound to `port` (all SO_REUSEPORT members).
+pub fn udp_rx_queue(port: u16) -> u64 {
+    let mut sum = 0u64;
+    if let Ok(t) = std::fs::read_to_string("/proc/net/udp") {
+        let want = format!(":{:04X}", port);
+        for l in t.lines().skip(1) {
+            let c: Vec<&str> = l.split_whitespace().collect();
+            if c.len() > 4 && c[1].ends_with(&want) {
+                if let Some(rx) = c[4].split(':').nth(1).and_then(|h| u64::from_str_radix(h, 16).ok()) {
+                    sum += rx;
+                }
+            }
+        }
+    }
+    sum
 }
 
 /// Time lines printed by the client when run with `-z -f "%s %f"`: (secs, nanos) per line.
@@ -344,6 +380,21 @@ impl ServerProc {
         let child = cmd.spawn().map_err(|e| format!("spawn server: {}", e))?;
         let pid = child.id();
         let port = w.get("port").and_then(|p| p.parse().ok()).unwrap_or(0);
+        Ok(ServerProc { child: Some(child), pid, dir, port })
+    }
+    /// Start the server on a configuration file with exactly this content.
+    pub fn start_raw(file_content: &[u8], port: u16) -> Result<ServerProc, String> {
+        let dir = scratch_dir();
+        let mut cmd = Command::new(repo_bin("roughenough-server"));
+        clean_env(&mut cmd);
+        let p = dir.join("server.yaml");
+        std::fs::write(&p, file_content).map_err(|e| e.to_string())?;
+        cmd.arg(&p);
+        let out = std::fs::File::create(dir.join("stdout")).map_err(|e| e.to_string())?;
+        let err = std::fs::File::create(dir.join("stderr")).map_err(|e| e.to_string())?;
+        cmd.stdin(Stdio::null()).stdout(out).stderr(err);
+        let child = cmd.spawn().map_err(|e| format!("spawn server: {}", e))?;
+        let pid = child.id();
         Ok(ServerProc { child: Some(child), pid, dir, port })
     }
     pub fn stdout(&self) -> String {
@@ -731,6 +782,79 @@ pub fn c20_process_part(ctx: &Ctx, scanned: &AtomicU64) -> Result<u64, String> {
             sp.kill();
             let _ = std::fs::remove_dir_all(&dir);
         }
+    }
+    // configuration files whose STRUCTURE is not what the server expects (the seed is in the file
+    // all the same): settings as a list, a bare scalar, nested mappings, the seed as a sequence or
+    // mapping, several documents, wrong-case keys, broken quoting, trailing garbage, binary junk.
+    // (Not: the seed's text written as the value of ANOTHER setting or as a key — a server that
+    // echoes an invalid port value echoes what the operator wrote as the port, not its seed.)
+    {
+        let n = std::sync::atomic::AtomicU64::new(0);
+        let failed: std::sync::Mutex<Option<String>> = std::sync::Mutex::new(None);
+        let mut cases: Vec<(String, String, Vec<u8>, u16)> = vec![]; // seed hex, description, file content, port
+        for seed_hex in seeds.iter().take(3).chain(seeds.iter().skip(4).take(1)) {
+            let x = seed_hex.as_str();
+            let docs: Vec<(&str, String)> = vec![
+                ("settings-as-list", "- seed: {X}\n- port: {P}\n- interface: 127.0.0.1\n- num_workers: 2\n".into()),
+                ("list-of-one-mapping", "- seed: {X}\n  port: {P}\n  interface: 127.0.0.1\n".into()),
+                ("bare-seed-scalar", "{X}\n".into()),
+                ("list-of-seed-scalar", "- {X}\n".into()),
+                ("nested-under-key", "server:\n  seed: {X}\n  port: {P}\n  interface: 127.0.0.1\n".into()),
+                ("seed-as-flow-sequence", "interface: 127.0.0.1\nport: {P}\nseed: [{X}]\n".into()),
+                ("seed-as-block-sequence", "interface: 127.0.0.1\nport: {P}\nseed:\n  - {X}\n".into()),
+                ("seed-as-mapping", "interface: 127.0.0.1\nport: {P}\nseed: {hex: {X}}\n".into()),
+                ("seed-written-twice", "interface: 127.0.0.1\nport: {P}\nseed: {X}\nseed: {X}\n".into()),
+                ("two-documents", "---\ninterface: 127.0.0.1\nport: {P}\nseed: {X}\n---\nseed: {X}\n".into()),
+                ("seed-single-quoted", "interface: 127.0.0.1\nport: {P}\nseed: '{X}'\n".into()),
+                ("seed-double-quoted-trailing-comment", "interface: 127.0.0.1\nport: {P}\nseed: \"{X}\"   # the seed\n".into()),
+                ("seed-unterminated-quote", "interface: 127.0.0.1\nport: {P}\nseed: \"{X}\n".into()),
+                ("key-upper-case", "interface: 127.0.0.1\nport: {P}\nSEED: {X}\n".into()),
+                ("key-capitalised", "interface: 127.0.0.1\nport: {P}\nSeed: {X}\n".into()),
+                ("seed-with-0x-prefix", "interface: 127.0.0.1\nport: {P}\nseed: 0x{X}\n".into()),
+                ("seed-with-trailing-text", "interface: 127.0.0.1\nport: {P}\nseed: {X} extra\n".into()),
+                ("tab-indented-garbage-after", "interface: 127.0.0.1\nport: {P}\nseed: {X}\n\t}} not yaml {{\n".into()),
+                ("binary-junk-then-seed", "\u{1}\u{2}\u{3}: \u{7f}\nseed: {X}\n".into()),
+                ("empty-file-comment-only", "# seed: {X}\n".into()),
+            ];
+            for (what, tmpl) in docs {
+                let port = free_port();
+                let text = tmpl.replace("{X}", x).replace("{P}", &port.to_string());
+                cases.push((seed_hex.clone(), what.to_string(), text.into_bytes(), port));
+            }
+        }
+        crate::util::par_for(cases.len(), 1, |k, _| {
+            let (seed_hex, what, content, port) = &cases[k];
+            let seed: [u8; 32] = rtref::crypto::unhex(seed_hex).try_into().unwrap();
+            let sc = Scanner::for_seed(&seed);
+            let mut sp = match ServerProc::start_raw(content, *port) {
+                Ok(s) => s,
+                Err(e) => {
+                    *failed.lock().unwrap() = Some(e);
+                    return;
+                }
+            };
+            sp.wait_started(1, Duration::from_secs(3));
+            if sp.try_status().is_none() {
+                sp.signal(libc::SIGINT);
+                let _ = sp.wait_exit(Duration::from_secs(5));
+            }
+            n.fetch_add(1, Relaxed);
+            let so = sp.stdout();
+            let se = sp.stderr();
+            for (wh, text) in [("stdout", so.as_bytes()), ("stderr", se.as_bytes())] {
+                scanned.fetch_add(text.len() as u64, Relaxed);
+                if let Some(p) = sc.scan(text) {
+                    let line = String::from_utf8_lossy(text).lines().find(|l| sc.scan(l.as_bytes()).is_some()).unwrap_or("").to_string();
+                    ctx.violation("secret-in-process-output", p.split('/').next().unwrap_or("?"), "config-file-structure", json!({"kind":"process","variant":what,"file":String::from_utf8_lossy(content),"seed":seed_hex,"where":wh,"pattern":p,"line":line.chars().take(300).collect::<String>()}));
+                }
+            }
+            sp.kill();
+        });
+        if let Some(e) = failed.lock().unwrap().take() {
+            return Err(e);
+        }
+        runs += n.load(Relaxed);
+        ctx.cov("config_file_structure_cases", json!(n.load(Relaxed)));
     }
     // every point of the C16 configuration grid (one deviation from the minimal base and from the
     // base with every optional key set, per-client statistics with and without a directory), both
